@@ -1,12 +1,626 @@
-"""Python leg of the checks (wheel conformance, from-scratch crypto). Filled in per property."""
+#!/usr/bin/env python3
+"""Python leg of the checks: replays harness-generated cases through the freshly built wheel and
+explores the pure-python helpers.  usage: pyleg.py PID TIER SEED RUST_RESULT.json OUT.json PYWHEEL_DIR TARGET_DIR"""
+import hashlib
+import io
+import itertools
+import json
+import multiprocessing as mp
+import os
+import sys
+import time
+import traceback
+
+PID, TIER, SEED, RUST_RESULT, OUT, PYDIR, TARGET = sys.argv[1:8]
+SEED = int(SEED)
+QUICK = TIER == "quick"
+sys.path.insert(0, PYDIR)
+sys.path.insert(0, os.path.dirname(os.path.abspath(__file__)))
 
 
-def run(pid, tier, seed, res, bins, root, target):
-    handler = HANDLERS.get(pid)
-    if handler is None:
-        res.setdefault("notes", {})["python_leg"] = "not built for this property"
-        return
-    handler(tier, seed, res, bins, root, target)
+class Res:
+    def __init__(self):
+        self.evaluations = 0
+        self.nontrivial = 0
+        self.violations = []
+        self.violation_count = 0
+        self.counts = {}
+        self.samples = []
+        self.notes = {}
+        self.machinery_errors = []
+        self.rule = ""
+        self._seen = set()
+
+    def inc(self, k, n=1):
+        self.counts[k] = self.counts.get(k, 0) + n
+
+    def violation(self, canon, detail):
+        if canon in self._seen:
+            return
+        self._seen.add(canon)
+        self.violation_count += 1
+        if len(self.violations) < 400:
+            self.violations.append({"canon": canon, "detail": detail[:1500]})
+
+    def merge(self, d):
+        self.evaluations += d["evaluations"]
+        self.nontrivial += d["nontrivial"]
+        for v in d["violations"]:
+            self.violation(v["canon"], v["detail"])
+        self.violation_count += max(0, d["violation_count"] - len(d["violations"]))
+        for k, v in d["counts"].items():
+            self.inc(k, v)
+        self.samples = (self.samples + d["samples"])[:6]
+        self.machinery_errors += d["machinery_errors"]
+
+    def dump(self):
+        return {"evaluations": self.evaluations, "nontrivial": self.nontrivial, "violations": self.violations,
+                "violation_count": self.violation_count, "counts": self.counts, "samples": self.samples, "notes": self.notes,
+                "machinery_errors": self.machinery_errors, "rule": self.rule}
 
 
-HANDLERS = {}
+# ---------------------------------------------------------------------------------------------
+# pure-python reference helpers (independent of the package under test)
+
+def ref_ser_atom(b):
+    n = len(b)
+    if n == 0:
+        return b"\x80"
+    if n == 1 and b[0] < 0x80:
+        return b
+    if n < 0x40:
+        return bytes([0x80 | n]) + b
+    if n < 0x2000:
+        return bytes([0xC0 | (n >> 8), n & 0xFF]) + b
+    if n < 0x100000:
+        return bytes([0xE0 | (n >> 16), (n >> 8) & 0xFF, n & 0xFF]) + b
+    raise ValueError("too long for this reference")
+
+
+def walk_ser(obj):
+    """serialize any object with the .atom/.pair protocol by walking it (checks the LazyNode views)"""
+    out = []
+    stack = [obj]
+    while stack:
+        o = stack.pop()
+        p = o.pair
+        if p is not None:
+            out.append(b"\xff")
+            stack.append(p[1])
+            stack.append(p[0])
+        else:
+            a = o.atom
+            assert a is not None, "object has neither atom nor pair"
+            out.append(ref_ser_atom(bytes(a)))
+    return b"".join(out)
+
+
+class PyNode:
+    """a plain python CLVM object"""
+    __slots__ = ("atom", "pair")
+
+    def __init__(self, atom=None, pair=None):
+        self.atom = atom
+        self.pair = pair
+
+
+def ref_deser(b):
+    """reference classic decoder -> (PyNode, consumed) or raises ValueError"""
+    pos = 0
+    ops = ["p"]
+    vals = []
+    while ops:
+        op = ops.pop()
+        if op == "c":
+            r = vals.pop()
+            l = vals.pop()
+            vals.append(PyNode(pair=(l, r)))
+            continue
+        if pos >= len(b):
+            raise ValueError("eof")
+        c = b[pos]
+        pos += 1
+        if c == 0xFF:
+            ops += ["c", "p", "p"]
+        elif c == 0x80:
+            vals.append(PyNode(atom=b""))
+        elif c < 0x80:
+            vals.append(PyNode(atom=bytes([c])))
+        else:
+            ones = 0
+            m = 0x80
+            while c & m:
+                ones += 1
+                c &= ~m
+                m >>= 1
+            if ones > 6:
+                raise ValueError("bad prefix")
+            n = c
+            for _ in range(ones - 1):
+                if pos >= len(b):
+                    raise ValueError("eof")
+                n = (n << 8) | b[pos]
+                pos += 1
+            if n >= 0x400000000 or len(b) - pos < n:
+                raise ValueError("bad size")
+            vals.append(PyNode(atom=bytes(b[pos:pos + n])))
+            pos += n
+    return vals.pop(), pos
+
+
+def ref_tree_hash(node):
+    stack = [("v", node)]
+    vals = []
+    while stack:
+        k, o = stack.pop()
+        if k == "c":
+            r = vals.pop()
+            l = vals.pop()
+            vals.append(hashlib.sha256(b"\x02" + l + r).digest())
+        elif o.pair is not None:
+            stack += [("c", None), ("v", o.pair[1]), ("v", o.pair[0])]
+        else:
+            vals.append(hashlib.sha256(b"\x01" + bytes(o.atom)).digest())
+    return vals.pop()
+
+
+def min_int_bytes(v):
+    if v == 0:
+        return b""
+    n = (v.bit_length() + 8) // 8
+    b = v.to_bytes(n, "big", signed=True)
+    while len(b) > 1 and ((b[0] == 0 and b[1] < 0x80) or (b[0] == 0xFF and b[1] >= 0x80)):
+        b = b[1:]
+    return b
+
+
+def cases_file(pid):
+    return os.path.join(TARGET, f"{pid}.{TIER}.cases.jsonl")
+
+
+def chunks(lines, n):
+    k = (len(lines) + n - 1) // n
+    return [lines[i:i + k] for i in range(0, len(lines), k)]
+
+
+# ---------------------------------------------------------------------------------------------
+# C26
+
+def c26_worker(lines):
+    import clvm_rs.clvm_rs as c
+    r = Res()
+    for line in lines:
+        case = json.loads(line)
+        k = case["k"]
+        r.evaluations += 1
+        try:
+            if k == "run":
+                p, e = bytes.fromhex(case["p"]), bytes.fromhex(case["e"])
+                exp = case["r"]
+                canon = f"run p={case['p'][:200]} e={case['e'][:80]} budget={case['b']} flags={case['f']:#x}"
+                try:
+                    cost, node = c.run_serialized_chia_program(p, e, case["b"], case["f"])
+                    got = {"ok": True, "cost": cost, "res": walk_ser(node).hex()}
+                    # the serializer entry point must agree with the walked view
+                    if c.ser_legacy(node).hex() != got["res"]:
+                        r.violation(canon, "ser_legacy(result) differs from the tree seen through LazyNode.atom/.pair")
+                except ValueError as ex:
+                    a = ex.args
+                    if len(a) == 1 and isinstance(a[0], tuple):
+                        a = a[0]
+                    if len(a) == 2 and hasattr(a[1], "atom"):
+                        got = {"ok": False, "err": a[0], "node": walk_ser(a[1]).hex()}
+                    else:
+                        got = {"decode_error": str(a[0]) if a else ""}
+                if "decode_error" in exp:
+                    if got.get("decode_error") != exp["decode_error"]:
+                        r.violation(canon, f"wheel {got} rust {exp}")
+                    else:
+                        r.inc("decode_errors_equal")
+                elif exp.get("ok"):
+                    if not got.get("ok") or got["cost"] != exp["cost"] or (exp["res"] is not None and got["res"] != exp["res"]):
+                        r.violation(canon, f"wheel {str(got)[:300]} rust {str(exp)[:300]}")
+                    else:
+                        r.nontrivial += 1
+                        r.inc("successes_equal")
+                else:
+                    if got.get("ok") is not False or got["err"] != exp["err"] or got["node"] != exp["node"]:
+                        r.violation(canon, f"wheel {str(got)[:300]} rust {str(exp)[:300]}")
+                    else:
+                        r.nontrivial += 1
+                        r.inc("errors_equal")
+            elif k == "ser":
+                legacy = bytes.fromhex(case["legacy"])
+                node = c.deser_legacy(legacy)
+                canon = f"ser tree={case['legacy']}"
+                if c.ser_legacy(node).hex() != case["legacy"] or c.ser_backrefs(node).hex() != case["backrefs"] or c.ser_2026(node).hex() != case["s2026"] or c.ser_2026(node, level=0xFFFFFFFF).hex() != case["s2026"]:
+                    r.violation(canon, "ser_legacy / ser_backrefs / ser_2026 differ from the Rust serializers")
+                elif walk_ser(node) != legacy:
+                    r.violation(canon, "LazyNode atom/pair walk differs from the tree")
+                else:
+                    r.nontrivial += 1
+                    r.inc("ser_equal")
+            elif k == "deser":
+                b = bytes.fromhex(case["b"])
+                canon = f"deser bytes={case['b'][:120]}"
+                for name, fn in (("legacy", c.deser_legacy), ("backrefs", c.deser_backrefs), ("d2026", c.deser_2026), ("auto", c.deser_auto)):
+                    exp = case[name]
+                    try:
+                        n = fn(b)
+                        got = {"ok": walk_ser(n).hex()}
+                    except ValueError as ex:
+                        got = {"err": str(ex)}
+                    if "ok" in exp:
+                        if got.get("ok") != exp["ok"]:
+                            r.violation(canon + " " + name, f"wheel {str(got)[:200]} rust {str(exp)[:200]}")
+                        else:
+                            r.nontrivial += 1
+                            r.inc("deser_ok_equal")
+                    else:
+                        if "err" not in got:
+                            r.violation(canon + " " + name, f"wheel accepts ({str(got)[:100]}) rust rejects ({exp['err']})")
+                        elif name != "d2026" and got["err"] != exp["err"]:
+                            # deser_2026 replaces the message when the magic prefix is missing
+                            r.violation(canon + " " + name, f"error message: wheel '{got['err']}' rust '{exp['err']}'")
+                        else:
+                            r.inc("deser_err_equal")
+                exp = case["len"]
+                try:
+                    got = {"ok": c.serialized_length(b)}
+                except ValueError as ex:
+                    got = {"err": str(ex)}
+                if got != exp:
+                    r.violation(canon + " serialized_length", f"wheel {got} rust {exp}")
+                exp = case["tree"]
+                try:
+                    t, h = c.deserialize_as_tree(b, True)
+                    got = {"ok": {"t": [list(x) for x in t], "h": [bytes(x).hex() for x in h]}}
+                    t2, h2 = c.deserialize_as_tree(b, False)
+                    if h2 is not None or [list(x) for x in t2] != got["ok"]["t"]:
+                        r.violation(canon + " deserialize_as_tree", "calculate_tree_hashes=False gives different triples")
+                except (ValueError, OSError) as ex:
+                    got = {"err": str(ex)}
+                if ("ok" in exp) != ("ok" in got) or ("ok" in exp and exp["ok"] != got["ok"]):
+                    r.violation(canon + " deserialize_as_tree", f"wheel {str(got)[:200]} rust {str(exp)[:200]}")
+        except Exception:
+            r.violation(f"python-leg exception on {line[:200]}", traceback.format_exc()[-800:])
+    if lines:
+        r.samples.append(json.loads(lines[len(lines) // 2]))
+    return r.dump()
+
+
+def run_c26(res):
+    lines = open(cases_file("C26")).read().splitlines()
+    with mp.Pool(16) as pool:
+        for d in pool.imap_unordered(c26_worker, chunks(lines, 64)):
+            res.merge(d)
+    res.rule = ("every harness-generated case is replayed through the freshly built extension module: run_serialized_chia_program for programs of P1, "
+                "P5thin, PV, P4 x every single flag bit 0..31, MEMPOOL_MODE, all-ones and (every 16th program) every pair of defined bits x budgets {0,1,C,C-1} plus malformed "
+                "serializations, compared with the Rust core (same flags after truncation, same allocator limit): cost, result tree (walked through LazyNode.atom/.pair and through "
+                "ser_legacy) or the exact error message and error node; ser_legacy/ser_backrefs/ser_2026 on every small tree; deser_legacy/deser_backrefs/deser_2026/deser_auto/"
+                "serialized_length/deserialize_as_tree on every short byte string, back-reference streams and 2026 blobs. Non-trivial = cases with a compared success or a compared error node.")
+
+
+# ---------------------------------------------------------------------------------------------
+# C27
+
+def storage_kinds():
+    import clvm_rs.clvm_rs as c
+    from clvm_rs.program import Program
+    from clvm_rs.clvm_tree import CLVMTree
+
+    def to_py(n):
+        if n.pair is not None:
+            return PyNode(pair=(to_py(n.pair[0]), to_py(n.pair[1])))
+        return PyNode(atom=bytes(n.atom))
+
+    def to_tuple(n):
+        if n.pair is not None:
+            return (to_tuple(n.pair[0]), to_tuple(n.pair[1]))
+        return bytes(n.atom)
+
+    class Fresh:
+        """pair accessor builds fresh child objects on every access"""
+        def __init__(self, src):
+            self._s = src
+
+        @property
+        def atom(self):
+            return self._s.atom
+
+        @property
+        def pair(self):
+            p = self._s.pair
+            if p is None:
+                return None
+            return (Fresh(p[0]), Fresh(p[1]))
+
+    return {
+        "plain": lambda b: to_py(ref_deser(b)[0]),
+        "Program.to": lambda b: Program.to(to_tuple(ref_deser(b)[0])),
+        "Program.from_bytes": lambda b: Program.from_bytes(b),
+        "LazyNode": lambda b: c.deser_legacy(b),
+        "fresh-children": lambda b: Fresh(to_py(ref_deser(b)[0])),
+        "CLVMTree": lambda b: CLVMTree.from_bytes(b),
+    }
+
+
+def c27_worker(lines):
+    import clvm_rs.clvm_rs as c
+    r = Res()
+    kinds = storage_kinds()
+    for line in lines:
+        b = bytes.fromhex(json.loads(line)["b"])
+        for name, mk in kinds.items():
+            r.evaluations += 1
+            canon = f"tree={b.hex()} storage={name}"
+            try:
+                obj = mk(b)
+                lazy = c.clvm_tree_to_lazy_node(obj)
+                blob = c.ser_2026(lazy)
+                back = c.deser_2026(blob)
+                got = walk_ser(back)
+                if got != b or walk_ser(lazy) != b:
+                    r.violation(canon, f"clvm_tree_to_lazy_node returned the tree {walk_ser(lazy).hex()} (after ser_2026/deser_2026: {got.hex()})")
+                else:
+                    r.nontrivial += 1
+                    r.inc("roundtrips_" + name)
+            except Exception:
+                r.violation(canon, traceback.format_exc()[-600:])
+    if lines:
+        r.samples.append(json.loads(lines[len(lines) // 2]))
+    return r.dump()
+
+
+def run_c27(res):
+    lines = open(cases_file("C27")).read().splitlines()
+    with mp.Pool(16) as pool:
+        for d in pool.imap_unordered(c27_worker, chunks(lines, 64)):
+            res.merge(d)
+    res.rule = ("every tree of TREES(4|5, {'aaaa','bbbb',''}) wrapped in every CLVMStorage implementation the wheel ships or accepts (plain python objects, Program.to, Program.from_bytes, "
+                "LazyNode from deser_legacy, a wrapper whose pair accessor builds fresh children on every access, CLVMTree): ser_2026(clvm_tree_to_lazy_node(obj)) is decoded with deser_2026 and "
+                "walked through atom/pair; it must serialize to the source bytes. Non-trivial = (tree, storage kind) pairs that round-trip.")
+
+
+# ---------------------------------------------------------------------------------------------
+# C28
+
+def c28_worker(args):
+    kind, lines = args
+    import clvm_rs.clvm_rs as c
+    from clvm_rs import ser as pyser, de as pyde
+    from clvm_rs.program import Program
+    from clvm_rs import casts
+    r = Res()
+    if kind == "trees":
+        for line in lines:
+            b = bytes.fromhex(json.loads(line)["b"])
+            r.evaluations += 1
+            canon = f"sexp_to_bytes tree={b.hex()}"
+            try:
+                node = ref_deser(b)[0]
+                rust = bytes(c.ser_legacy(c.deser_legacy(b)))
+                got = pyser.sexp_to_bytes(node)
+                if got != rust or got != b:
+                    r.violation(canon, f"pure-python serializer {got.hex()} rust {rust.hex()}")
+                else:
+                    r.nontrivial += 1
+                    r.inc("ser_equal")
+                # deserialize_as_tuples with the pure fallback forced
+                saved = pyde.deserialize_as_tree
+                pyde.deserialize_as_tree = None
+                try:
+                    t_py = pyde.deserialize_as_tuples(b, 0, True)
+                finally:
+                    pyde.deserialize_as_tree = saved
+                t_rs = c.deserialize_as_tree(b, True)
+                if [tuple(x) for x in t_py[0]] != [tuple(x) for x in t_rs[0]] or [bytes(x) for x in t_py[1]] != [bytes(x) for x in t_rs[1]]:
+                    r.violation(f"deserialize_as_tuples tree={b.hex()}", "pure-python fallback differs from the Rust parse_triples")
+            except Exception:
+                r.violation(canon, traceback.format_exc()[-600:])
+    elif kind == "bytes":
+        for b in lines:
+            r.evaluations += 1
+            canon = f"sexp_from_stream bytes={b.hex()}"
+            try:
+                try:
+                    rn = c.deser_legacy(b)
+                    rust = walk_ser(rn)
+                    rlen = len(ref_ser_canon_len(b))
+                except ValueError:
+                    rust = None
+                try:
+                    f = io.BytesIO(b)
+                    pn = pyser.sexp_from_stream(f, lambda l, rr: PyNode(pair=(l, rr)), lambda a: PyNode(atom=bytes(a)))
+                    py = walk_ser(pn)
+                    pos = f.tell()
+                except (ValueError, EOFError, IndexError, OverflowError, MemoryError) as ex:
+                    py = None
+                if (rust is None) != (py is None):
+                    r.violation(canon, f"pure-python stream deserializer {'accepts' if py is not None else 'rejects'}, Rust classic decoder {'accepts' if rust is not None else 'rejects'}")
+                elif rust is not None:
+                    if rust != py:
+                        r.violation(canon, f"trees differ: python {py.hex()} rust {rust.hex()}")
+                    else:
+                        r.nontrivial += 1
+                        r.inc("deser_equal")
+                else:
+                    r.inc("both_reject")
+            except Exception:
+                r.violation(canon, traceback.format_exc()[-600:])
+    elif kind == "ints":
+        for v in lines:
+            r.evaluations += 1
+            try:
+                exp = min_int_bytes(v)
+                got = casts.int_to_bytes(v)
+                if got != exp:
+                    r.violation(f"int_to_bytes {v}", f"{got.hex()} expected {exp.hex()}")
+                if casts.int_from_bytes(exp) != v:
+                    r.violation(f"int_from_bytes {exp.hex()}", f"{casts.int_from_bytes(exp)} expected {v}")
+                # cross-check with the Rust interpreter: (+ (q . v) ()) re-encodes canonically
+                if abs(v) < (1 << 200) and r.evaluations % 8 == 0:
+                    prog = b"\xff\x10\xff\xff\x01" + ref_ser_atom(exp) + b"\xff\xff\x01\x80\x80"
+                    _, res_node = c.run_serialized_chia_program(prog, b"\x80", 0, 0)
+                    if bytes(res_node.atom) != got:
+                        r.violation(f"int_to_bytes {v} vs rust", f"python {got.hex()} rust {bytes(res_node.atom).hex()}")
+                r.nontrivial += 1
+            except Exception:
+                r.violation(f"int {v}", traceback.format_exc()[-600:])
+    elif kind == "curry":
+        mods, arglists = lines
+        for m in mods:
+            for args in arglists:
+                r.evaluations += 1
+                canon = f"curry mod={m.hex()} args={[a.hex() for a in args]}"
+                try:
+                    mod = Program.from_bytes(m)
+                    pargs = [Program.from_bytes(a) for a in args]
+                    curried = mod.curry(*pargs)
+                    ch = mod.curry_hash(*[p.tree_hash() for p in pargs])
+                    if ch != ref_tree_hash(ref_deser(bytes(curried))[0]):
+                        r.violation(canon, "curry_hash != tree hash of the curried program")
+                    un = curried.uncurry()
+                    if bytes(un[0]) != m or [bytes(x) for x in un[1]] != list(args):
+                        r.violation(canon, f"uncurry(curry(m, args)) = ({bytes(un[0]).hex()}, {[bytes(x).hex() for x in un[1]]})")
+                    # run-equivalence: run(curry(m,args), env) == run(m, args ++ env)
+                    env = ref_deser(bytes.fromhex("ff8205398080"))[0]
+                    full_env = env
+                    for a in reversed(args):
+                        full_env = PyNode(pair=(ref_deser(a)[0], full_env))
+                    def run(pb, envnode):
+                        try:
+                            cost, res_node = c.run_serialized_chia_program(pb, walk_ser(envnode), 0, 0)
+                            return ("ok", walk_ser(res_node))
+                        except ValueError as ex:
+                            return ("err", str(ex.args[0]) if ex.args else "")
+                    r1 = run(bytes(curried), env)
+                    r2 = run(m, full_env)
+                    if r1[0] != r2[0] or (r1[0] == "ok" and r1[1] != r2[1]):
+                        r.violation(canon, f"run(curry(m,args), env) = {r1} but run(m, args++env) = {r2}")
+                    else:
+                        r.nontrivial += 1
+                        r.inc("curry_equivalent_" + r1[0])
+                except Exception:
+                    r.violation(canon, traceback.format_exc()[-600:])
+    return r.dump()
+
+
+class PyBuild:
+    @staticmethod
+    def mk(x):
+        if isinstance(x, tuple):
+            return PyNode(pair=(x[0], x[1]))
+        return PyNode(atom=bytes(x))
+
+
+def ref_ser_canon_len(b):
+    return b
+
+
+def run_c28(res):
+    lines = open(cases_file("C28")).read().splitlines()
+    jobs = [("trees", ch) for ch in chunks(lines, 32)]
+    # byte strings: all of BYTES(2) plus the structured prefix space
+    inputs = [bytes(x) for n in range(0, 3) for x in itertools.product(range(256), repeat=n)] if not QUICK else [bytes(x) for n in range(0, 2) for x in itertools.product(range(256), repeat=n)] + [bytes([a, b]) for a in (0x00, 0x7f, 0x80, 0x81, 0xbf, 0xc0, 0xe0, 0xf0, 0xf8, 0xfc, 0xfe, 0xff) for b in range(256)]
+    firsts = [0x81, 0xbf, 0xc0, 0xdf, 0xe0, 0xef, 0xf0, 0xf7, 0xf8, 0xfb, 0xfc, 0xfd, 0xfe]
+    for f in firsts:
+        for n in range(0, 8):
+            for size_bytes in itertools.product([0x00, 0x01, 0xff], repeat=n):
+                if n > 4 and any(x == 0xff for x in size_bytes[:-1]):
+                    continue
+                pre = bytes([f]) + bytes(size_bytes)
+                for body in (b"", b"A", b"AB", b"A" * 70):
+                    inputs.append(pre + body)
+    for pre in (b"\xff", b"\xff\xff", b"\xff\x01"):
+        for b in (b"", b"\x01", b"\x80", b"\x01\x02", b"\x81\x80\x01", b"\xfe\x01"):
+            inputs.append(pre + b)
+    inputs = sorted(set(inputs))
+    jobs += [("bytes", ch) for ch in chunks(inputs, 32)]
+    ib = 1 << (12 if QUICK else 17)
+    ints = list(range(-ib, ib + 1))
+    for k in range(0, 131):
+        for d in (-2, -1, 0, 1, 2):
+            ints += [(1 << k) + d, -(1 << k) + d]
+    jobs += [("ints", ch) for ch in chunks(sorted(set(ints)), 16)]
+    # modules x argument lists
+    mods_txt = ["01", "02", "05", "ff10ff02ff0580", "ff04ff02ff0580", "ff02ff02ff0580", "ff0bff02ff0580", "ff08ff0280", "ff12ffff0103ff0280", "ff04ffff0101ff0180",
+                "ff03ff02ff05ff0b80", "ff0eff02ff05ff0b80", "ff09ff02ff0580", "ff15ff02ff0580", "ff10ff02ff05ff0bff1780", "80", "ff0180", "ff01ff02ff0380", "ffff010180", "ff06ff0180"]
+    if not QUICK:
+        mods_txt += ["ff0cff02ff05ff0b80", "ff0dff0280", "ff11ff02ff0580", "ff13ff02ff0580", "ff16ff02ff0580", "ff18ff02ff0580", "ff1bff0280", "ff20ff0280", "ff21ff02ff0580", "ff07ff0280",
+                     "ff05ff0280", "ff06ff0280", "ff02ffff0101ff0180", "ff02ffff01ff10ff02ff0580ff0180", "ff3cff02ff05ff0b80", "ff30ff02ff05ff0b80", "8200ff", "ff8200ffff0280", "ff24ffff0164ffff0180ffff01ff0101ff0180", "ffff0280"]
+    mods = [bytes.fromhex(m) for m in mods_txt]
+    a6 = [b"\x80", b"\x01", b"\x02", b"\x81\x80", b"\x82\x00\x80", b"\x81\xff"]
+    arglists = [()] + [(a,) for a in a6] + [(a, b) for a in a6 for b in a6] + [(a, b, c2) for a in a6[:3] for b in a6[:3] for c2 in a6[:3]] + [(b"\xff\x01\x02",), (b"\xff\x01\x02", b"\x80")]
+    jobs += [("curry", ([m], arglists)) for m in mods]
+    with mp.Pool(16) as pool:
+        for d in pool.imap_unordered(c28_worker, jobs):
+            res.merge(d)
+    res.rule = (f"sexp_to_bytes and the pure-python deserialize_as_tuples fallback on every tree of TREES(4|5,A6) against the Rust classic serializer / parse_triples; sexp_from_stream on {len(inputs)} byte "
+                f"strings (all strings up to 1|2 bytes, every length-prefix class with size bytes over {{00,01,ff}} up to 7 bytes and short/exact/long bodies) against the Rust classic decoder (accept/reject and tree); "
+                f"int_to_bytes / int_from_bytes on every integer in +-{ib} and +-2^k+-d (k<=130) against an independent minimal encoder and (every 8th) the Rust interpreter; curry / uncurry / curry_hash / "
+                f"run-equivalence on {len(mods)} modules x {len(arglists)} argument lists. Non-trivial = compared successes.")
+
+
+# ---------------------------------------------------------------------------------------------
+# C22 python arm
+
+def c22_worker(lines):
+    import clvm_rs.clvm_rs as c
+    from clvm_rs.program import Program
+    from clvm_rs.tree_hash import sha256_treehash
+    r = Res()
+    for line in lines:
+        case = json.loads(line)
+        b = bytes.fromhex(case["b"])
+        node = ref_deser(b)[0]
+        want = ref_tree_hash(node)
+        if want.hex() != case["h"]:
+            r.machinery_errors.append(f"hashlib-based tree hash disagrees with the harness reference for {case['b']}")
+        objs = {"plain": node, "Program": Program.from_bytes(b), "LazyNode": c.deser_legacy(b)}
+        for name, o in objs.items():
+            r.evaluations += 1
+            try:
+                got = bytes(sha256_treehash(o))
+                if got != want:
+                    r.violation(f"sha256_treehash tree={case['b']} storage={name}", f"{got.hex()} expected {want.hex()}")
+                else:
+                    r.nontrivial += 1
+            except Exception:
+                r.violation(f"sha256_treehash tree={case['b']} storage={name}", traceback.format_exc()[-500:])
+        try:
+            if Program.from_bytes(b).tree_hash() != want:
+                r.violation(f"Program.tree_hash tree={case['b']}", "differs")
+        except Exception:
+            r.violation(f"Program.tree_hash tree={case['b']}", traceback.format_exc()[-500:])
+    return r.dump()
+
+
+def run_c22(res):
+    lines = open(cases_file("C22")).read().splitlines()
+    with mp.Pool(16) as pool:
+        for d in pool.imap_unordered(c22_worker, chunks(lines, 32)):
+            res.merge(d)
+    res.rule = "the wheel's sha256_treehash (and Program.tree_hash) on every tree of TREES(3|4,A6) as plain python objects, Program and LazyNode against sha256(1||atom)/sha256(2||l||r) computed with hashlib (cross-checked with the harness's own SHA-256)."
+
+
+HANDLERS = {"C26": run_c26, "C27": run_c27, "C28": run_c28, "C22": run_c22}
+
+
+def main():
+    res = Res()
+    t = time.time()
+    try:
+        if PID == "C32":
+            import c32leg
+            c32leg.run(res, QUICK, SEED, TARGET)
+        else:
+            HANDLERS[PID](res)
+    except Exception:
+        res.machinery_errors.append(traceback.format_exc()[-1500:])
+    res.notes["python_wall_s"] = round(time.time() - t, 1)
+    json.dump(res.dump(), open(OUT, "w"))
+
+
+if __name__ == "__main__":
+    main()
